@@ -93,11 +93,12 @@ macro_rules! reusable {
 // ---- end flacverif O4 ----
 '''
 
-# For C10 units: every use of a scratch buffer starts from contents chosen by the harness through
-# `crate::verif_support::Havoc` (arbitrary but type-valid), i.e. an over-approximation of every
-# possible call history.
+# For C10/C12 units marked `havoc=1` ("sticky"): the scratch buffer of a key is ONE object that
+# persists between uses inside the harness, as the thread-local does on a long-lived thread, so a
+# harness can run a history (call, failing call, call) and observe what leaks from one to the next.
 REUSABLE_TWIN_HAVOC = '''
-// ---- flacverif O4: cfg(kani) twin of `reusable!` (havocked buffer per use; no thread_local) ----
+// ---- flacverif O4: cfg(kani) twin of `reusable!` (STICKY: one buffer per key that persists across
+// uses within a harness, exactly like the thread-local on one long-lived thread; no thread_local) ----
 #[cfg(kani)]
 macro_rules! reusable {
     ($key:ident: $t:ty) => {
@@ -109,10 +110,14 @@ macro_rules! reusable {
         impl $key {
             #[allow(dead_code)]
             fn with<R>(&self, f: impl FnOnce(&std::cell::RefCell<$t>) -> R) -> R {
-                let mut v: $t = $init;
-                crate::verif_support::Havoc::havoc(&mut v);
-                let cell = std::cell::RefCell::new(v);
-                f(&cell)
+                static mut STORE: Option<std::cell::RefCell<$t>> = None;
+                #[allow(static_mut_refs)]
+                unsafe {
+                    if STORE.is_none() {
+                        STORE = Some(std::cell::RefCell::new($init));
+                    }
+                    f(STORE.as_ref().unwrap())
+                }
             }
         }
     };
@@ -233,7 +238,7 @@ def build(dest, havoc=False, with_contracts=True, only_files=None, extra=None):
     else:
         s = s + "\n" + twin
     info["replaced"].append("src/lib.rs: `reusable!` guarded by cfg(not(kani)) + cfg(kani) twin (%s)"
-                            % ("havoc" if havoc else "fresh"))
+                            % ("sticky" if havoc else "fresh"))
     # O3 + O1b ---------------------------------------------------------------------------------
     s = ("#![cfg_attr(kani, feature(stmt_expr_attributes, proc_macro_hygiene))]\n"
          "#![cfg_attr(kani, allow(unused_attributes))]\n" + s)
